@@ -115,6 +115,8 @@ def oracle(ctx, label, data, o, names):
             key = f"decompile-exec-raises:{type(e).__name__}"
         if de.scheme_name_collision(o) and not isinstance(e, SyntaxError):
             key = "global-name-captures-decompiler-variable"
+        if de.name_not_nfkc_stable(o) and not isinstance(e, SyntaxError):
+            key = "global-name-not-nfkc-stable"
         agg.violation(key, f"fickling accepted the pickle but executing its decompile raises {type(e).__name__}: {str(e)[:120]}",
                       diffrun.witness(label, data, names, decompile=o.src[:600]))
         return
@@ -126,6 +128,9 @@ def oracle(ctx, label, data, o, names):
         key, what = classify_value(o)
         if de.scheme_name_collision(o):
             key = "global-name-captures-decompiler-variable"
+        if de.name_not_nfkc_stable(o):
+            key, what = "global-name-not-nfkc-stable", ("a global whose name changes under NFKC: read back as source text the "
+                                                       "decompile denotes the folded identifier")
         agg.violation(key, what, diffrun.witness(label, data, names, decompile=o.src[:600],
                                                  vm_value=str(o.ref_canon)[:400], dec_value=str(o.dec_canon)[:400]))
 
